@@ -328,10 +328,11 @@ def probe(system, specs):
     return good, bad
 
 
-def do_run(system, NK, NKFFT, calcs, irred, tmp, tag):
+def do_run(system, NK, NKFFT, calcs, irred, tmp, tag, symmetrize=None):
     import wannierberri as wb
     grid = wb.Grid(system, NK=list(NK), NKFFT=list(NKFFT))
-    res = wb.run(system, grid, calcs, use_irred_kpt=irred, symmetrize=irred, parallel=False, adpt_num_iter=0,
+    res = wb.run(system, grid, calcs, use_irred_kpt=irred, symmetrize=irred if symmetrize is None else symmetrize,
+                 parallel=False, adpt_num_iter=0,
                  fout_name=os.path.join(tmp, tag), file_Klist_path=os.path.join(tmp, "K_" + tag), restart=False,
                  print_progress_step_time=1e9)
     return res
@@ -356,8 +357,11 @@ def cases(tier, seed):
         grids = MODELS[n]["grids"] if tier == "thorough" else MODELS[n]["grids"][:1]
         for ig, (NK, FFT) in enumerate(grids):
             for b in BATCHES_QUICK:
-                for cname in calculator_classes(b):
-                    yield {"kind": "run", "model": n, "NK": list(NK), "NKFFT": list(FFT), "batch": b, "calc": cname}
+                for ic, cname in enumerate(calculator_classes(b)):
+                    c = {"kind": "run", "model": n, "NK": list(NK), "NKFFT": list(FFT), "batch": b, "calc": cname}
+                    if ic == 0 and ig == 0 and b != "tab":
+                        c["nosym"] = True       # one class per (model, batch): + a run with symmetrize=False passed explicitly
+                    yield c
     if tier == "thorough":
         for n in TETRA_MODELS:
             NK, FFT = MODELS[n]["grids"][0]
@@ -490,6 +494,21 @@ def run_batch(case, s, sib, meta, tmp):
         nK[tag] = len(first)
     reduced = nK["irr"] < nK["full"]
     nontrivial, failures, obs = [], [], {"nK": nK, "not_runnable": bad, "worst": {}}
+    if case.get("nosym") and batch != "tab":
+        # documented: "symmetrize ... always True if use_irred_kpt == True" -- irreducible K-points with symmetrize=False
+        # passed explicitly must give the symmetrised result as well
+        calcs, st, _ = instantiate(specs, only=good)
+        r2 = do_run(s, case["NK"], case["NKFFT"], calcs, True, tmp, "irr_nosym", symmetrize=False)
+        for nm in good:
+            a, b = results["irr"].results[nm], r2.results[nm]
+            if isinstance(a, VoidResult) or isinstance(b, VoidResult):
+                continue
+            scale = max(mean_norm(stores["full"][nm]), mean_norm(stores["sib"][nm]), 1e-300)
+            d, where = compare_energy(a, b)
+            if d is None or d / scale > TOL:
+                failures.append((f"irr!=full:symmetrize_False_with_irreducible_kpoints:{nm.split(':')[0]}",
+                                 f"{nm}: run(use_irred_kpt=True, symmetrize=False) differs from run(use_irred_kpt=True) "
+                                 f"by {d if d is None else d / scale:.3g} of the scale"))
     if batch == "tab":
         ta, tb = results["irr"].results["tabulate"], results["full"].results["tabulate"]
         if not (isinstance(ta, TABresult) and isinstance(tb, TABresult)):
